@@ -84,6 +84,32 @@ def distinct_pool(rng, ns):
 
 
 # NOTE: stdout of a worker can exceed the pipe buffer; read it in a thread-less way by using files
+def sweep_pool(rng, n, dims=(2, 8, 3), ring=True, nout=1):
+    """queries with the SAME index structure (identical inputs and output: a ring / chain of n tensors)
+    and DIFFERENT size_dict (a bond-dimension sweep), cheapest first"""
+    bonds = ["b%d" % i for i in range(n if ring else n - 1)]
+    inputs = [[] for _ in range(n)]
+    for i, b in enumerate(bonds):
+        inputs[i].append(b)
+        inputs[(i + 1) % n].append(b)
+    output = []
+    for k in range(nout):
+        o = "o%d" % k
+        inputs[rng.randrange(n)].append(o)
+        output.append(o)
+    for t in inputs:
+        rng.shuffle(t)
+    pool = []
+    for d in dims:
+        size = {b: d for b in bonds}
+        size.update({o: 2 for o in output})
+        pool.append({"inputs": [list(t) for t in inputs], "output": list(output), "size_dict": size})
+    return pool
+
+
+SWEEP_HISTORY = [0, 1, 2, 0, 1]      # d=2, 8, 3, 2, 8: the cheaper contraction always first
+
+
 def run_batches(ctx, batches, timeout):
     out = [None] * len(batches)
     pending = list(enumerate(batches))
@@ -240,6 +266,17 @@ def forced_jobs(ctx, rng):
         for progs in ([[1], [3]], [[1, 0], [3, 1]], [[0, 3, 1], [1, 2]]):
             for o in rng.sample(orders6, ctx.n(3, 40)):
                 add(preset, {}, bigpool, progs, [[t, "shared"] for t in o], "preset-auto")
+    # same index structure, different sizes (bond-dimension sweep), two threads
+    sweep = sweep_pool(rng, 6)
+    sweep_cfgs = [c for c in auto_cfgs if c[1].get("optimal_cutoff") == 0] + [
+        ("autohq", {"cache": True, "optimal_cutoff": 0, "max_repeats": 2, "methods": ["greedy"], "optlib": "random"}),
+        ("autohq", {"cache": False, "optimal_cutoff": 0, "max_repeats": 2, "methods": ["greedy"], "optlib": "random"}),
+    ] + reusable_cfgs
+    for target, opts in sweep_cfgs:
+        for progs in ([[0, 1], [0, 1]], [[0, 1, 2], [2, 1]]):
+            pick = orders6 if target.startswith("auto") else orders
+            for o in rng.sample(pick, ctx.n(4, 60)):
+                add(target, opts, sweep, progs, [[t, "shared"] for t in o], "sweep")
     # (b) random programs, 2-3 threads, micro-step schedules
     for _ in range(ctx.n(160, 2500)):
         target, opts = rng.choice(reusable_cfgs + auto_cfgs)
@@ -297,6 +334,25 @@ def seq_jobs(ctx, rng):
             add("reusable-rg", {"max_repeats": 4, "overwrite": ow}, small, api)
     add("reusable-hyper", {"max_repeats": 4, "hash_method": "b"}, small, "tree")
     add("reusable-hyper", {"max_repeats": 3, "slicing_opts": {"target_slices": 2}}, small, "tree")
+    # bond-dimension sweeps: consecutive queries with identical inputs/output and different size_dict
+    def add_sweep(target, opts, n, api):
+        jobs.append({"kind": "seq", "target": target, "opts": opts, "queries": sweep_pool(rng, n),
+                     "history": list(SWEEP_HISTORY), "api": api, "tag": "sweep:%s%s" % (
+                         target, "(cache=%s)" % opts["cache"] if "cache" in opts else "")})
+    for cls in ("auto", "autohq"):
+        for cache in (False, True):
+            o = {"cache": cache, "max_repeats": 4}
+            if cls == "autohq":
+                o["methods"] = ["greedy", "random-greedy"]
+            for api in ("tree", "via"):
+                add_sweep(cls, dict(o, optimal_cutoff=0), 8, api)
+            add_sweep(cls, dict(o), 14 if cls == "auto" else 22, "tree")     # default cutoff: hyper branch
+    for preset, n in (("preset:auto", 14), ("preset:auto-hq", 14), ("preset:greedy", 12), ("preset:optimal", 8),
+                      ("instance:auto_optimize", 14)):
+        add_sweep(preset, {}, n, "via" if preset.startswith("instance") else "tree")
+    for ow in (False, True, "improved"):
+        add_sweep("reusable-hyper", {"max_repeats": 4, "overwrite": ow, "methods": ["greedy", "random-greedy"]}, 12, "tree")
+        add_sweep("reusable-rg", {"max_repeats": 4, "overwrite": ow}, 12, "tree")
     if not ctx.quick:
         for _ in range(40):
             t, o = rng.choice([("auto", {"cache": True, "optimal_cutoff": 0, "max_repeats": 3}),
@@ -326,6 +382,19 @@ def stress_jobs(ctx, rng):
             jobs.append({"kind": "stress", "target": target, "opts": opts, "queries": pool, "programs": progs,
                          "api": rng.choice(["tree", "path"]) if not target.startswith("preset") else "tree",
                          "switch": 1e-6, "timeout": 100, "tag": "stress:%s" % target})
+    # bond-dimension sweeps from two free threads
+    sw = sweep_pool(rng, 8)
+    for target, opts in [
+        ("auto", {"cache": False, "optimal_cutoff": 0, "max_repeats": 3}),
+        ("auto", {"cache": True, "optimal_cutoff": 0, "max_repeats": 3}),
+        ("autohq", {"cache": False, "optimal_cutoff": 0, "max_repeats": 3, "methods": ["greedy"]}),
+        ("reusable-hyper", {"max_repeats": 3, "methods": ["greedy"]}),
+        ("reusable-rg", {"max_repeats": 4}),
+        ("preset:greedy", {}),
+    ]:
+        jobs.append({"kind": "stress", "target": target, "opts": opts, "queries": sw,
+                     "programs": [list(SWEEP_HISTORY) * 2, list(SWEEP_HISTORY) * 2],
+                     "api": "tree", "switch": 1e-6, "timeout": 100, "tag": "sweep-stress:%s" % target})
     # threads that run one after the other (thread idents get recycled)
     for target, opts in [
         ("reusable-hyper", {"max_repeats": 3, "methods": ["greedy"]}),
@@ -545,7 +614,9 @@ def run(ctx):
         "threads (same and different contraction), sampled orderings for two-query programs and the Auto objects, "
         "random micro-step schedules (thorough: all 3432 interleavings of the 7 atomic steps); non-trivial = at least "
         "two thread switches and eight steps; distinct by (object, options, programs, executed schedule).  "
-        "sequential: histories over 4-6 different contractions (incl. small-after-large and repeats) through every "
+        "sweeps: histories d=2,8,3,2,8 over ONE index structure (ring of 6-22 tensors) with different size_dict, "
+        "sequentially, forced and from free threads (tree.size_dict and the reported costs are compared with the "
+        "query).  sequential: histories over 4-6 different contractions (incl. small-after-large and repeats) through every "
         "preset name, the module instances, Auto/AutoHQ x cache x cutoff, Reusable* x overwrite, by search / __call__ / "
         "array_contract_tree.  stress: 2-3 free threads, switch interval 1e-6.")
     ctx.assumptions = [
